@@ -23,7 +23,8 @@ package connectconformance
 //@   trusted
 //@   modifies startedProc
 //@   ensures (result_1 == nil) == (result_0 != nil)
-//@   ensures result_0 != nil ==> fresh(result_0) && result_0.processController != nil && result_0.stdin != nil && result_0.stdout != nil && (arg2 ==> result_0.stderr != nil) && startedProc[0] == result_0
+//@   ensures result_0 != nil ==> fresh(result_0) && result_0.processController != nil && result_0.stdin != nil && result_0.stdout != nil && (arg2 ==> result_0.stderr != nil)
+//@   ensures startedProc[0] == result_0
 
 // the process-exit hook only cancels the process context
 //@ func runTestCasesForServer$1
@@ -50,8 +51,9 @@ package connectconformance
 //@ func runTestCasesForServer
 //@   requires wfResults(results) && startServer != nil && client != nil && logPrinter != nil && errPrinter != nil && ctx != nil
 //@   requires (forall i int :: 0 <= i && i < len(testCases) ==> testCases[i] != nil && testCases[i].Request != nil) && len(testCases) <= 1073741824
-//@   modifies held, atomicI32, map[string]testOutcome, sendOK, startedProc, chanClosed, selWait, wrOut, wireFmt, rdPos, mapof(tracer.Tracer.traces), tracer.Tracer.traces,
+//@   modifies held, atomicI32, map[string]testOutcome, sendOK, startedProc, abortN, chanClosed, selWait, wrOut, wireFmt, rdPos, mapof(tracer.Tracer.traces), tracer.Tracer.traces,
 //@            map[string]struct{}, map[string]string, []*conformancev1.Header, conformancev1.ClientCompatRequest.*, conformancev1.ServerCompatResponse.*, conformancev1.ClientCompatResponse.*, conformancev1.RawHTTPRequest.Headers
+//@   ensures @stopped startedProc[0] != old(startedProc[0]) && startedProc[0] != nil ==> abortN[startedProc[0].processController] > old(abortN)[startedProc[0].processController] //# a server that was started is asked to stop
 //@   ensures @accounted forall i int :: 0 <= i && i < len(testCases) ==>
 //@        has(results.outcomes, testCases[i].Request.TestName) || sendOK[testCases[i].Request.TestName]
 //@   loop 0: invariant testCaseNameSet != nil && fresh(testCaseNameSet)
